@@ -289,6 +289,7 @@ def d4(prog: Program, chk: Check) -> None:
                                      "vanishes: summing the last leg changes the trace", c)
         if inner is None:
             continue
+        inner = _resolve_name(du, nid, inner)      # A held in a local of its own
         terms = _split_terms(inner)
         sig = []
         for (coef, t) in terms:
